@@ -460,3 +460,106 @@ def lattice_deck(rnd, dims=2, nsym=3, variant='array', skew=False):
     d.cells.insert(1, lat)
     d.cells.append(dk.Cell(99, ('s', 50), imp=0))
     return d, pre
+
+
+# ------------------------------------------------------------------ hexagonal lattices
+HEXAGONS = {
+    'near-regular': [(2, 0), (1, 2), (-1, 2), (-2, 0), (-1, -2), (1, -2)],
+    'flat': [(3, 0), (1, 1), (-1, 1), (-3, 0), (-1, -1), (1, -1)],
+    'docstring': [(-Fr(5, 2), -1), (Fr(1, 2), -1), (Fr(5, 2), 0), (Fr(5, 2), 1), (-Fr(1, 2), 1), (-Fr(5, 2), 0)],
+    'skewed': [(2, 1), (0, 2), (-2, 1), (-2, -1), (0, -2), (2, -1)],
+}
+
+
+def hex_deck(rnd, shape='near-regular', axis='z', dims=2, nsym=2):
+    """container filled with universe 5 = one LAT=2 cell (hexagonal prism), elements filled from an array."""
+    from . import hexref
+    d = dk.Deck()
+    pre = []
+    bud = Budget(rnd, nsym)
+    R = Fr(rnd.choice([9, 10]))
+    d.surfs.append(dk.Surf(50, 'so', [R]))
+    cont = dk.Cell(1, ('s', -50), imp=1, fill=5)
+    if rnd.random() < 0.4:
+        cont.filltr = rand_tr(rnd, 'f', pre, budget=bud, rot=False)
+    d.cells.append(cont)
+    verts = [(Fr(x), Fr(y)) for x, y in HEXAGONS[shape]]
+    scale = bud.num('s', pre, positive=True, choices=[1, Fr(1, 2)])
+    cx = bud.num('cx', pre, choices=[0, Fr(1, 2)])
+    cy = bud.num('cy', pre, choices=[0, -1])
+    hexref._Nominal.NOMINAL = {'s': 1, 'cx': 0, 'cy': 0}
+    perm = {'z': (0, 1, 2), 'x': (1, 2, 0), 'y': (2, 0, 1)}[axis]          # in-plane (u, v) and axial w -> coordinates
+
+    def to3(u, v, w):
+        out = [None, None, None]
+        out[perm[0]], out[perm[1]], out[perm[2]] = u, v, w
+        return out
+    sides = []
+    for i in range(6):
+        (x1, y1), (x2, y2) = verts[i], verts[(i + 1) % 6]
+        nu, nv = (y2 - y1), -(x2 - x1)              # outward normal of a counter-clockwise polygon
+        dd = nu * x1 + nv * y1                      # > 0 (origin inside)
+        # scaled / shifted: n.(c + s v) = n.c + s dd
+        S = scale if isinstance(scale, RatFn) else RatFn.const(scale)
+        CX = cx if isinstance(cx, RatFn) else RatFn.const(cx)
+        CY = cy if isinstance(cy, RatFn) else RatFn.const(cy)
+        off = CX * RatFn.const(nu) + CY * RatFn.const(nv) + S * RatFn.const(dd)
+        off = off.as_const() if off.as_const() is not None else off
+        sides.append((to3(Fr(nu), Fr(nv), Fr(0)), off))
+    # listing order: opposite pairs are (i, i+3); pick the first pair, its orientation, the second pair, ...
+    pairs = [(0, 3), (1, 4), (2, 5)]
+    rnd.shuffle(pairs)
+    order = []
+    for a_, b_ in pairs:
+        p = [a_, b_]
+        if rnd.random() < 0.5:
+            p.reverse()
+        order += p
+    if rnd.random() < 0.5:
+        order[4], order[5] = order[5], order[4]
+    leaves = []
+    sid = 0
+    for k in order:
+        sid += 1
+        nrm, off = sides[k]
+        d.surfs.append(dk.Surf(sid, 'p', nrm + [off]))
+        leaves.append(('s', -sid))
+    if dims == 3:
+        lo = bud.num('zl', pre, choices=[-1, Fr(-1, 2)])
+        h = bud.num('zh', pre, positive=True, choices=[2, Fr(3, 2)])
+        hi = (lo if isinstance(lo, RatFn) else RatFn.const(lo)) + (h if isinstance(h, RatFn) else RatFn.const(h))
+        hi = hi.as_const() if hi.as_const() is not None else hi
+        mn = 'p' + axis
+        d.surfs.append(dk.Surf(7, mn, [hi]))
+        d.surfs.append(dk.Surf(8, mn, [lo]))
+        tail = [('s', -7), ('s', 8)]
+        if rnd.random() < 0.5:
+            # the other way round: index k increases across the first of the two (plane 8, downwards)
+            tail = [('s', 8), ('s', -7)]
+        leaves += tail
+    lat = dk.Cell(2, ('and',) + tuple(leaves), imp=1, u=5, lat=2)
+    ranges = [rnd.choice([(0, 1), (-1, 0), (0, 0), (-1, 1)]) for _ in range(dims)]
+    size = 1
+    for lo_, hi_ in ranges:
+        size *= hi_ - lo_ + 1
+    while size > 6:
+        k = rnd.randrange(len(ranges))
+        ranges[k] = (ranges[k][0], ranges[k][0])
+        size = 1
+        for lo_, hi_ in ranges:
+            size *= hi_ - lo_ + 1
+    d.mats = {1: [('13027', '1.0')], 2: [('13027', '1.0')], 3: [('1001', '2'), ('8016', '1')], 4: [('13027', '1.0')]}
+    d.cells.append(dk.Cell(11, ('or', ('s', -50), ('s', 50)), mat=1, rho='-1.0', imp=1, u=1))
+    d.surfs.append(dk.Surf(62, 's', [Fr(0), Fr(0), Fr(0), Fr(1, 2)]))
+    d.cells.append(dk.Cell(12, ('s', -62), mat=2, rho='-2.0', imp=1, u=2))
+    d.cells.append(dk.Cell(22, ('s', 62), mat=3, rho='0.1', imp=1, u=2))
+    pool = [1, 2, 0, 5]
+    univs = [rnd.choice(pool) for _ in range(size)]
+    if all(u in (0, 5) for u in univs):
+        univs[0] = 2
+    lat.fill = dk.LatFill(ranges, univs)
+    if 5 in univs:
+        lat.mat, lat.rho = 4, '-9.0'
+    d.cells.insert(1, lat)
+    d.cells.append(dk.Cell(99, ('s', 50), imp=0))
+    return d, pre
